@@ -89,7 +89,8 @@ def plan(rng, idx, tier):
             bad = (j == bad_at) or (i in bad_src and gr.chance(0.3))
             ccfg = gcontent.ContentCfg(max_nodes=gr.pick([1, 2, 3, 4]),
                                        invalid_roles=(gr.pick([0.3, 0.6, 1.0]) if bad else 0.0),
-                                       p_inverted_attr=0.05)
+                                       p_inverted_attr=0.05,
+                                       extra_edge_roles=[gmodels.top_role(spec)] if gr.chance(0.3) else [])
             c = gcontent.gen_content(gr, spec, ccfg)
             tree = gcontent.layout_tree(gr.sub('layout'), c, spec, gcontent.LayoutCfg(p_align=gr.pick([0, 0, 0.3])))
             if bad and gr.chance(0.15):
